@@ -7,9 +7,22 @@ From Via Require Import M_Char M_Encode M_Parse M_Receive M_Server P_Server.
 Local Open Scope N_scope.
 
 From Via Require Import P_C09 P_Shapes.
+From Via Require Import M_Imp M_Query Gen_Parse P_Query.
 
 Theorem C09_never_truncated : forall recipe_of o evs, o_tls o = false ->
   ~ In_truncated (snd (run recipe_of o w_init evs)).
 Proof. exact never_truncated. Qed.
 
 Print Assumptions C09_never_truncated.
+
+(* ---- the tie to the source, as a theorem ----
+   The queries on a received request are translated from clang's AST on every run (translate/parse.py -> Gen_Parse.v,
+   terms of M_Query.v: functions of the request line as M_Imp expressions over its members; queries of the header block
+   as "which header, which token, what a hit means", their common frame - look up, false if empty, lower-case, search -
+   checked by the translator).  The model's decision is, for EVERY received request, the translated one. *)
+Theorem C09_keep_alive_is_the_source : forall q, rq_ev q rq_keep_alive_src = rq_keep_alive q.
+Proof. exact rq_keep_alive_is_the_source. Qed.
+Theorem C09_close_connection_is_the_source : forall h, hq_eval hd_close_connection_src h = hd_close_connection h.
+Proof. exact hd_close_connection_is_the_source. Qed.
+Print Assumptions C09_keep_alive_is_the_source.
+Print Assumptions C09_close_connection_is_the_source.
